@@ -104,6 +104,7 @@ func newStats(it *corp.Item) *stats {
 }
 
 func (s *stats) add(k string, n int64) { s.c[k] += n }
+func (s *stats) get(k string) int64    { return s.c[k] }
 func (s *stats) dist(k string) {
 	if len(s.distinct) < 5000 {
 		s.distinct[k] = true
